@@ -783,7 +783,12 @@ def run(ctx):
     sl.run(corr.load_corpus("C07", sl.name), "corpus")
     rng = ctx.rng
     cases = gen_boundary() + gen_final_size() + gen_repetition(rng, ctx.thorough) + gen_lost_limits()
-    s.run(cases)
+    # one batch per family: corr.Suite reports at most three failing cases per batch
+    fams = collections.OrderedDict()
+    for c in cases:
+        fams.setdefault(c["kind"].split("-")[0] + ("-cross" if c["kind"].endswith("cross") else ""), []).append(c)
+    for fam in fams.values():
+        s.run(fam)
     s.run(gen_random(rng, ctx.n(120, 3000)))
     found = gen_findings(ctx.thorough)
     for kind in ("finding-reset-double-count",):
